@@ -292,7 +292,8 @@ def print_arg(a):
 def print_field(f, indent="  "):
     s = _desc(f.description, indent) + indent + f.name
     if f.args:
-        s += "(" + ", ".join(print_arg(a) for a in f.args) + ")"
+        s += "(" + ", ".join((esc_string(a.description) + " " if a.description is not None else "") + print_arg(a)
+                             for a in f.args) + ")"
     s += ": " + tstr(f.type) + _dep(f.deprecated)
     if f.non_introspectable:
         s += " @nonIntrospectable"
@@ -334,7 +335,8 @@ def print_type(t, fields=None, extend=False, members=None, values=None, interfac
 def print_directive_def(d):
     s = _desc(d.description) + "directive @" + d.name
     if d.args:
-        s += "(" + ", ".join(print_arg(a) for a in d.args) + ")"
+        s += "(" + ", ".join((esc_string(a.description) + " " if a.description is not None else "") + print_arg(a)
+                             for a in d.args) + ")"
     return s + " on " + " | ".join(d.locations)
 
 
@@ -411,6 +413,7 @@ class GenOpts:
         self.p_nonnull = 0.3
         self.rename_roots = 0.15
         self.p_gate = 0.0                 # @vtgate on arguments / fields (scheduler suspension points)
+        self.p_covariant = 0.15           # implementer's field type is a subtype of the interface's
         self.__dict__.update(kw)
 
 
@@ -525,6 +528,7 @@ def gen_schema(rng, opts=None):
             f = gen_field(fu, 0.7)
             it.fields[f.name] = f
     # objects: implement 0-2 interfaces, copy their fields (same types/args), add own
+    covariant = []
     for n in objects:
         ot = s.types[n]
         fu = set()
@@ -544,6 +548,7 @@ def gen_schema(rng, opts=None):
                         g = Field(f.name, f.type, [Arg(a.name, a.type, a.default) for a in f.args])
                         ot.fields[g.name] = g
                         fu.add(g.name)
+                        covariant.append(g)
         for _ in range(ri(*o.fields)):
             f = gen_field(fu)
             ot.fields[f.name] = f
@@ -558,6 +563,20 @@ def gen_schema(rng, opts=None):
             tgt.interfaces.append(iname)
             for f in s.types[iname].fields.values():
                 tgt.fields[f.name] = Field(f.name, f.type, [Arg(a.name, a.type, a.default) for a in f.args])
+
+    # covariance: an implementer may narrow a field type (non-null of it, or a possible type of an abstract one)
+    def narrow(t):
+        inner = t[1] if t[0] == "NN" else t
+        if inner[0] == "L":
+            r = L(narrow(inner[1]))
+        else:
+            td = s.types.get(inner[1])
+            poss = s.possible_types(inner[1]) if td is not None and td.kind in ("INTERFACE", "UNION") else []
+            r = N(rng.choice(sorted(poss))) if poss and rng.random() < 0.6 else inner
+        return NN(r) if (t[0] == "NN" or rng.random() < 0.4) else r
+    for g in covariant:
+        if rng.random() < o.p_covariant:
+            g.type = narrow(g.type)
 
     # roots
     if rng.random() < o.rename_roots:
